@@ -109,7 +109,12 @@ def _seq(det_alt, kind, tier, i):
         from nuspacesim.simulation.eas_optical.cphotang import CphotAng
 
         ev = _pool(tier)[i]
-        r = CphotAng(det_alt).run(np.float64(ev[0]), np.float64(ev[1]), np.float64(ev[2]), np.float64(ev[3]), np.float64(ev[4]), _cloud(kind))
+        st = np.random.get_state()
+        np.random.seed(20240917)  # the reference never depends on what ran before it
+        try:
+                r = CphotAng(det_alt).run(np.float64(ev[0]), np.float64(ev[1]), np.float64(ev[2]), np.float64(ev[3]), np.float64(ev[4]), _cloud(kind))
+        finally:
+            np.random.set_state(st)
         _MEMO[key] = (float(np.float64(r[0])), float(np.float64(r[1])))
     return _MEMO[key]
 
